@@ -35,6 +35,12 @@ def case_strategy(draw, tier):
         # values biased to the ends and the mid-point of the declared range (symmetric narrowings keep lower+upper)
         a = draw(st.one_of(st.sampled_from([lo, hi, (lo + hi) // 2, (lo + hi + 1) // 2]), st.integers(lo, hi)))
         b = draw(st.one_of(st.just(min(hi, max(a, lo + hi - a))), st.integers(a, min(hi, a + 4))))
+        if mode in (3, 4) and (lo, hi) != (0, 1) and draw(st.integers(0, 3)) == 0:
+            # a narrowing that COINCIDES with a default range: (0,1) - what an undeclared variable has - or the 16-bit range
+            if lo <= 0 and hi >= 1:
+                a, b = 0, 1
+            elif lo <= -32768 and hi >= 32767:
+                a, b = -32768, 32767
         dl.append([mode, a, b])
         im = draw(st.sampled_from([1, 1, 1, 1, 1, 2, 0, 3]))
         x = draw(st.integers(lo, hi))
@@ -252,6 +258,11 @@ def check(case, ev):
     for k in remaining:
         if k not in lv and k not in comps:
             raise Violation(f"assumed model contains unknown id {k!r}")
+    # (d) documented: assume() "returns a new proposition with these new bounds set" - a leaf named in D that is still part of
+    # the assumed model carries exactly the bounds it was given
+    for k in D:
+        if k in lv and k in remaining and remaining[k] != (int(box[k][0]), int(box[k][1])):
+            raise Violation(f"after assume({_show(D)}) the leaf {k!r} has bounds {remaining[k]}, not the assumed {tuple(box[k])}")
     for p in pts:
         env = dict(zip(ids, p))
         memo = {}
